@@ -58,11 +58,52 @@ def pipeline_events(sim):
             if actor == "driver":
                 for what, kw in notes:
                     if what == "postprocess":
-                        evs.append({"e": "postprocess", "obs": {"stored": kw["stored"], "fed": kw["fed"]}})
+                        evs.append({"e": "postprocess", "obs": {"stored": kw["stored"], "fed": kw["fed"]}, "tput": kw.get("tput"), "tput_docs": kw.get("tput_docs")})
                 for dst, m in e["out"]:
                     if isinstance(m, (driver.TaskFinished, driver.BenchmarkComplete)):
                         evs.append({"e": "handover", "obs": {"handed": sim.sids_of_docs(sim.docs_of_memento(m.metrics))}})
     return evs
+
+
+def _rat(x):
+    n, d = float(x).as_integer_ratio()
+    return f"{n}/{d}"
+
+
+def throughput_end_to_end(ctx, sim, evs, tidx):
+    """the batches the real SamplePostprocessor handed to its real ThroughputCalculator over the whole race, replayed through the
+    Lean model of the calculator (C06): what the post-processor stores as throughput must be what the model computes from the same
+    batches — i.e. throughput really is computed from all samples, across the post-processing calls of this race"""
+    pps = [e for e in evs if e["e"] == "postprocess" and e["obs"]["fed"]]
+    if not pps:
+        return
+    calls, observed = [], []
+    for e in pps:
+        call = []
+        for sid in e["obs"]["fed"]:
+            i = sim.sample_info.get(sid)
+            if i is None:
+                return  # a sample the harness could not identify: the pipeline replay reports it
+            call.append({"task": tidx[i["task"]], "abs": _rat(i["abs"]), "rel": _rat(i["rel"]), "period": _rat(i["period"]), "ops": int(i["ops"]),
+                         "unit": i["unit"], "normal": i["normal"], "tput": None if i["tput"] is None else _rat(i["tput"])})
+        calls.append(call)
+        observed.append([[tidx[t], [[_rat(a), _rat(r), nrm, None if v is None else _rat(v), u] for a, r, nrm, v, u in vals]] for t, vals in (e.get("tput") or [])])
+        n_vals = sum(len(vals) for _, vals in (e.get("tput") or []))
+        if e.get("tput_docs") is not None and e["tput_docs"] != n_vals:
+            ctx.fail("throughput-records", "the post-processor did not store one throughput record per value the calculator returned", n_vals, e["tput_docs"])
+    try:
+        m = ctx.model("throughput", "run", {"bi": 1, "calls": calls})
+    except Exception as ex:  # out-of-domain numbers (should not happen with dyadic virtual times)
+        ctx.count("throughput-model-skipped")
+        return
+    got = m["r"]["calls"]
+    if got != observed:
+        k = next(i for i, (a, b) in enumerate(zip(got, observed)) if a != b) if len(got) == len(observed) else -1
+        ctx.diff("throughput values stored by the post-processor over the race's batches", got[k] if k >= 0 else len(got), observed[k] if k >= 0 else len(observed))
+        # direct statement: total operations behind the last value of a task never exceed / miss the operations fed so far by more than
+        # what is still un-bucketed; a concrete oracle on the last call: cumulative ops fed >= ops counted by the last emitted value
+        ctx.fail("throughput-not-from-all-samples", "throughput values differ from those computed from all samples fed to the calculator", got[k] if k >= 0 else None, observed[k] if k >= 0 else None)
+    ctx.count("throughput-calls", len(calls))
 
 
 def run(ctx, case):
@@ -72,7 +113,8 @@ def run(ctx, case):
     evs = pipeline_events(sim)
     cap = sc.get("queue_size", 1 << 20)
     factor = sc.get("downsample", 1)
-    m = ctx.model("samples", "replay", {"cap": cap, "factor": factor, "events": evs})
+    m = ctx.model("samples", "replay", {"cap": cap, "factor": factor, "events": [{k: v for k, v in e.items() if k not in ("tput", "tput_docs")} for e in evs]})
+    throughput_end_to_end(ctx, sim, evs, tidx)
     tags = m.get("tags", [])
     cls = ("small-queue" if "queue_size" in sc else "") + ("+downsample" if factor > 1 else "") or "default"
     if "diff" in m:
